@@ -69,15 +69,39 @@ def _directly_asserted_variables(test_case: tc.TestCase) -> set[str]:
     """
     protected: set[str] = set()
     for statement in test_case.statements():
+        if not _carries_reference_assertion(statement):
+            continue
         for assertion in statement.assertions:
-            if isinstance(assertion, ExceptionAssertion):
-                continue
-            if isinstance(assertion, ReferenceAssertion):
-                source = assertion.source
-                # In the libcst representation the source is the variable name.
-                if isinstance(source, str):
-                    protected.add(source)
+            if isinstance(assertion, ReferenceAssertion) and isinstance(assertion.source, str):
+                # In the libcst representation the source is the variable name or a
+                # field access on it (``var_0.field``).
+                protected.add(assertion.source.split(".", 1)[0])
+        # The assertions are rendered after the statement they are attached to: that
+        # statement has to stay as well, and with it the variables it uses.
+        if statement.bound_variable is not None:
+            protected.add(statement.bound_variable)
+        protected.update(statement.used_variables())
     return protected
+
+
+def _carries_reference_assertion(statement: tc.Statement) -> bool:
+    return any(
+        isinstance(assertion, ReferenceAssertion) and isinstance(assertion.source, str)
+        for assertion in statement.assertions
+    )
+
+
+def _is_protected(statement: tc.Statement, protected: set[str]) -> bool:
+    """Whether a statement must be kept because of the assertions of its test case.
+
+    Args:
+        statement: The statement to check.
+        protected: The protected variable names of the test case.
+
+    Returns:
+        True, if the statement binds a protected variable or carries a reference assertion.
+    """
+    return statement.bound_variable in protected or _carries_reference_assertion(statement)
 
 
 def _add_backward_dependencies(test_case: tc.TestCase, protected: set[str]) -> None:
@@ -284,7 +308,7 @@ class ForwardIterativeMinimizationVisitor(IterativeMinimizationVisitor):
             i = 0
             while i < test_case.size():
                 statement = test_case.get_statement(i)
-                if statement.bound_variable in protected:
+                if _is_protected(statement, protected):
                     i += 1
                     continue
                 test_clone = test_case.clone()
@@ -317,7 +341,7 @@ class BackwardIterativeMinimizationVisitor(IterativeMinimizationVisitor):
             i = test_case.size() - 1
             while i >= 0:
                 statement = test_case.get_statement(i)
-                if statement.bound_variable in protected:
+                if _is_protected(statement, protected):
                     i -= 1
                     continue
                 test_clone = test_case.clone()
@@ -493,8 +517,12 @@ class CombinedMinimizationVisitor(cv.ChromosomeVisitor):
             statements_changed = False
             for test_case_idx, test_case_chrom in enumerate(chromosome.test_case_chromosomes):
                 test_case = test_case_chrom.test_case
+                protected = get_assertion_protected_variables(test_case)
                 i = 0
                 while i < test_case.size():
+                    if _is_protected(test_case.get_statement(i), protected):
+                        i += 1
+                        continue
                     test_suite_clone = chromosome.clone()
                     clone_test_case_chrom: tcc.TestCaseChromosome = (
                         test_suite_clone.get_test_case_chromosome(test_case_idx)
